@@ -1,7 +1,6 @@
-(** C05 — expressions evaluate with conventional, self-consistent semantics.
-    (The precedence/associativity clause is a statement about the grammar: see Grammar_proofs / C20.) *)
+(** C05 — expressions evaluate with conventional, self-consistent semantics. *)
 From Coq Require Import List ZArith NArith Lia Bool.
-From AG Require Import Str F64 Value Json Expr Ops Pipeline F64_proofs F64_exact_proofs Value_proofs Expr_proofs.
+From AG Require Import Str F64 Value Json Expr Ops Pipeline F64_proofs F64_exact_proofs Value_proofs Expr_proofs Grammar Print Roundtrip_proofs.
 Import ListNotations.
 Open Scope Z_scope.
 
@@ -133,3 +132,29 @@ Print Assumptions C05_functions_sample.
 Example C05_example_half_plus_half :
   eval (ECmp CEq (EArith AAdd (EVal (VFloat (f_of_dec false 5 (-1)))) (EVal (VFloat (f_of_dec false 5 (-1))))) (EVal (VInt 1))) [] = Ok (VBool true).
 Proof. vm_compute. reflexivity. Qed.
+
+(** *** precedence and associativity, as one statement about the parser: every spelling of every
+    well-formed expression — printed with parentheses only where `* /` > `+ -` > comparisons >
+    `and` > `or`, left associativity and the non-chaining of comparisons require them, or fully
+    parenthesised; with any whitespace runs, `and`/`&&`, `or`/`||`, `!=`/`<>`, either quote
+    style — is read back as exactly that expression *)
+Theorem C05_precedence_roundtrip : forall (o : popts) (e : expr) (rest : str),
+  popts_ok o = true -> wf_expr e = true -> stopb rest = true ->
+  opt_expr (pp o 0 e ++ rest) = POk e rest.
+Proof. exact expr_roundtrip. Qed.
+Print Assumptions C05_precedence_roundtrip.
+
+(** the parser's fuel never runs out: its result does not depend on surplus fuel *)
+Theorem C05_parser_fuel_irrelevant : forall (f1 f2 : nat) (s : str),
+  (length s < f1)%nat -> (length s < f2)%nat -> p_expr f1 s = p_expr f2 s.
+Proof. exact p_expr_fuel_irrelevant. Qed.
+Print Assumptions C05_parser_fuel_irrelevant.
+
+Example C05_precedence_examples :
+  let c n := ECol (lit n) [] in
+  opt_expr (lit "a + b * c") = POk (EArith AAdd (c "a") (EArith AMul (c "b") (c "c"))) [] /\
+  opt_expr (lit "a - b - c") = POk (EArith ASub (EArith ASub (c "a") (c "b")) (c "c")) [] /\
+  opt_expr (lit "a + 1 < b and !x or y") =
+    POk (ELogic LOr (ELogic LAnd (ECmp CLt (EArith AAdd (c "a") (EVal (VInt 1))) (c "b")) (ENot (c "x"))) (c "y")) [] /\
+  opt_expr (lit "( a  ||b )&& c") = POk (ELogic LAnd (ELogic LOr (c "a") (c "b")) (c "c")) [].
+Proof. exact precedence_examples. Qed.
